@@ -37,7 +37,7 @@ THREE_T = [
   sc(1, 0, (PUSH, N), (POP, N), (POP, N)),
   sc(8, 0, (PUSH, N), (POP, N), (POP, N)),
 ]
-BPOP, TRYPUSH = 3, 4
+BPOP, TRYPUSH, ABORT = 3, 4, 5
 def bsc(cap, *a): return dict(sc(*a), CAP=cap)
 BQ_ONE = [
   bsc(1, 0, 0, (PUSH, N), (BPOP, N)),        # pop sleeps on the empty queue until the push notifies items_avail
@@ -56,7 +56,8 @@ DESC = ('2-3 threads x <=2 operations (push / try_pop) after a sequential pre-st
 IMMB = [r'S_class_tbb__detail__d2__concurrent_bounded_queue\*\)v_\d+\)\)\.f[34]$']   # my_queue_representation, my_monitors
 UNITS['bq1_2'] = dict(wrapper='w_cq.cpp', mode='lcs', unroll=1, cxxflags=['-DELEM=1', '-DBOUNDED=1'], lvalpath=True, immutable=IMMB, threads=thr('vp_thr_q', 2))
 UNITS['bq1_3'] = dict(wrapper='w_cq.cpp', mode='lcs', unroll=1, cxxflags=['-DELEM=1', '-DBOUNDED=1'], lvalpath=True, immutable=IMMB, threads=thr('vp_thr_q', 3))
-UNITS['cqx1_2'] = dict(wrapper='w_cq.cpp', mode='lcs', unroll=1, cxxflags=['-DELEM=1', '-DFAULTS=1'], exceptions=True, lvalpath=True, immutable=IMM, threads=thr('vp_thr_q', 2))
+UNITS['cqx1_2'] = dict(wrapper='w_cq.cpp', mode='lcs', unroll=1, cxxflags=['-DELEM=1', '-DFAULTS=1'], exceptions=True, allow_atomic=['__clang_call_terminate'], lvalpath=True, immutable=IMM, threads=thr('vp_thr_q', 2))
+UNITS['bqx1_2'] = dict(wrapper='w_cq.cpp', mode='lcs', unroll=1, cxxflags=['-DELEM=1', '-DBOUNDED=1', '-DABORTS=1'], exceptions=True, allow_atomic=['__clang_call_terminate'], lvalpath=True, immutable=IMMB, threads=thr('vp_thr_q', 2))
 HARNESSES = [
   dict(name='cq_big_2t', unit='cq1_2', harness='h_cq.c', defines={'NT': 2, 'ITEMS_PER_PAGE': 1},
        scenarios_quick=R(3, ONE_OP[:3]) + R(2, ONE_OP[3:]) + R(2, TWO_OP[:1]), scenarios_thorough=R(4, ONE_OP[:3]) + R(3, ONE_OP[3:]) + R(3, TWO_OP),
@@ -73,12 +74,27 @@ HARNESSES = [
        cbmc=CB, timeout=1500, mem_gb=8, thorough_override={'timeout': 3600}, native_cflags=NCF,
        desc='concurrent_queue<72-byte struct> (2 items/page): push ticket 16 appends a new page to lane 0 while pop ticket 8 (last item of the first page) unlinks and frees that page: ' + DESC,
        bounds={'threads': 2, 'ops_per_thread': 1, 'free_rounds': '2 quick / 3 thorough', 'forced_rounds': 2, 'spin_unroll': 1}),
+  dict(name='cq_fault_2t', unit='cqx1_2', harness='h_cq.c', defines={'NT': 2, 'ITEMS_PER_PAGE': 1, 'FAULTS': 1},
+       scenarios_quick=R(2, [sc(0, 0, (PUSH, N), (POP, N))]), scenarios_thorough=R(3, [sc(0, 0, (PUSH, N), (POP, N)), sc(0, 0, (PUSH, N), (PUSH, N))]) + R(2, [sc(1, 0, (PUSH, N), (POP, POP)), sc(0, 0, (PUSH, PUSH), (POP, POP))]),
+       cbmc=CB, timeout=1500, mem_gb=8, thorough_override={'timeout': 5400}, native_cflags=NCF,
+       desc='fault variant (unit compiled WITH exceptions): the element copy constructor throws at a solver-chosen call (at most once) after the push took its ticket and its lane turn: '
+            'the failing push reports the exception, its slot becomes an invalid entry that pops skip, no other item is lost/duplicated, history linearizable with the failed push having no effect: ' + DESC,
+       bounds={'threads': 2, 'ops_per_thread': '<=2', 'faults': '<=1 constructor exception at any call index', 'free_rounds': 'ROUNDS of the scenario', 'forced_rounds': 2, 'spin_unroll': 1}),
+  dict(name='bq_abort_2t', unit='bqx1_2', harness='h_cq.c', defines={'NT': 2, 'ITEMS_PER_PAGE': 1, 'BOUNDED': 1, 'ABORTS': 1},
+       scenarios_quick=R(2, [dict(bsc(1, 0, 0, (BPOP, N), (ABORT, N)), PREBLOCK=1)]) + R(1, [dict(bsc(1, 1, 0, (PUSH, N), (ABORT, POP)), PREBLOCK=1)]),
+       scenarios_thorough=R(2, [dict(bsc(1, 0, 0, (BPOP, N), (ABORT, N)), PREBLOCK=1), dict(bsc(1, 1, 0, (PUSH, N), (ABORT, POP)), PREBLOCK=1),
+                                bsc(1, 0, 0, (BPOP, N), (ABORT, PUSH)), bsc(1, 1, 0, (PUSH, N), (ABORT, BPOP))]),
+       cbmc=CB, timeout=1500, mem_gb=8, thorough_override={'timeout': 5400}, native_cflags=NCF,
+       desc='concurrent_bounded_queue::abort (unit compiled WITH exceptions): a caller sleeping in push/pop is woken with user_abort (blocked-state oracle), an aborted pop gives its ticket back, '
+            'an aborted push leaves an invalid entry that later pops skip; user_abort only for calls overlapping an abort(); no item lost or duplicated, history of the successful calls linearizable. '
+            'PREBLOCK: thread a first runs until it sleeps, then the threads interleave freely',
+       bounds={'threads': 2, 'ops_per_thread': '<=2', 'capacity': 1, 'free_rounds': 'ROUNDS of the scenario (quick 2 / 1, thorough 2)', 'forced_rounds': 2, 'spin_unroll': 1}),
   dict(name='cq_big_3t', unit='cq1_3', harness='h_cq.c', defines={'NT': 3, 'ITEMS_PER_PAGE': 1}, tiers=['thorough'],
        scenarios=R(2, THREE_T), cbmc=CB, timeout=3600, mem_gb=8, native_cflags=NCF,
        desc='concurrent_queue<136-byte struct>, 3 threads x 1 operation: ' + DESC,
        bounds={'threads': 3, 'ops_per_thread': 1, 'free_rounds': 2, 'forced_rounds': 2, 'spin_unroll': 1}),
   dict(name='bq_big_2t', unit='bq1_2', harness='h_cq.c', defines={'NT': 2, 'ITEMS_PER_PAGE': 1, 'BOUNDED': 1},
-       scenarios_quick=R(2, BQ_ONE), scenarios_thorough=R(3, BQ_ONE) + R(2, BQ_TWO),
+       scenarios_quick=R(2, BQ_ONE[:3] + BQ_ONE[4:]), scenarios_thorough=R(3, BQ_ONE) + R(2, BQ_TWO),
        cbmc=CB, timeout=1500, mem_gb=8, thorough_override={'timeout': 5400}, native_cflags=NCF,
        desc='concurrent_bounded_queue<136-byte struct>, capacity 1-2 (header code real; the r1:: monitor entry points are contract stubs with sleeper bookkeeping): '
             'push/pop (blocking), try_push, try_pop; linearizability against a BOUNDED FIFO queue (a push takes effect only when size < capacity, try_push fails only when full), '
@@ -92,9 +108,6 @@ if _os.environ.get('C09_SC'):
     for _h in HARNESSES:
         for _key in ('scenarios', 'scenarios_quick', 'scenarios_thorough'):
             if _key in _h: _h[_key] = [x for i, x in enumerate(_h[_key]) if i in _k]
-OUTSIDE = []
-STUBS = []
-ASSUMPTIONS = []
 MANIFEST = dict(
   level_text='Bounded model checking of the real concurrent_queue / concurrent_bounded_queue code (push, try_pop, blocking pop, try_push; micro_queue lanes, '
              'page allocation/linking/freeing, pop finalizer, ticket counters): for 2-3 threads with <=2 operations each, started from pre-states built by real '
@@ -105,13 +118,15 @@ MANIFEST = dict(
              '(two-round blocked-state oracle), capacity never exceeded, try_push/try_pop failures justified.',
   level_note='Element types: 136-byte (1 item/page), 72-byte (2/page), 4-byte (32/page). Bounds per harness in evidence (threads, ops, rounds, pre-state). '
              'concurrent_bounded_queue: the header code is real, the three r1:: monitor entry points are contract stubs (atomic test-and-sleep, notify selects '
-             'contexts <= ticket); the real concurrent_monitor is checked in C02. Exceptions compiled out: constructor/allocation faults and abort() are outside. '
+             'contexts <= ticket, abort wakes all with user_abort); the real concurrent_monitor is checked in C02. Two harnesses are compiled WITH exceptions (lowered by the translator): '
+             'an element copy constructor that throws at a solver-chosen call after the ticket was taken (invalid entry skipped by pops, nothing else lost), and abort() of a sleeping push/pop. '
+             'Page-allocation failure (bad_last_alloc) is outside. '
              'Sequential consistency. Trusted: clang-14 IR, tools/ir2c.py (--lvalpath/--immutable emission), cbmc + kissat.',
 )
 OUTSIDE = [
   'more than 3 threads, more than 2 operations per thread (4 concurrent operations in the quick tier)',
-  'fault sequences: element constructor / page allocation that throws (needs the exception-enabled build), hence the invalid-entry paths (n_invalid_entries, bad_last_alloc)',
-  'concurrent_bounded_queue::abort / user_abort, capacity changes while threads run, negative-size states with more than one blocked pop',
+  'fault sequences beyond one constructor exception per run; page allocation that throws (invalidate_page / bad_last_alloc path); faults in the bounded queue',
+  'abort() racing with more than one sleeper or with a notify for the same sleeper beyond the 2-thread scenarios listed; capacity changes while threads run; negative-size states with more than one blocked pop',
   'the real concurrent_monitor under the bounded queue (stubbed at the r1:: boundary; covered separately by C02) and the real cache_aligned_allocator',
   'two operations meeting in the same lane other than push(k+8)/pop(k): e.g. pop(k)/pop(k+8) needs >8 pops (mutation M2 below is invisible inside the bound)',
   'emplace / move push, iterators, copy/move/assign/clear/swap (not concurrent operations)',
@@ -122,7 +137,9 @@ STUBS = [
   'r1::allocate_bounded_queue_rep: static representation object; the monitor memory behind it is never touched by the header code',
   'r1::wait_bounded_queue_monitor(tag, target, pred): returns iff pred() is false, else the caller sleeps under context `target`; test-and-sleep atomic; pred re-evaluated after each selecting notify',
   'r1::notify_bounded_queue_monitor(tag, ticket): wakes every sleeper of that monitor whose context <= ticket (predicate_leq)',
-  'r1::throw_exception: must not be reached (no faults injected)',
+  'r1::abort_bounded_queue_monitors: every current sleeper is woken and its wait throws user_abort without re-evaluating the predicate (concurrent_monitor::abort_all)',
+  'r1::throw_exception: throws (sets the pending-exception flag of the lowered unwinding) in the abort harness, must not be reached elsewhere',
+  'element copy constructor fault hook vp_ctor_fault (fault harness only): throws at most FAULTS times at solver-chosen calls while the threads run',
   'sched_yield / pause: scheduling hints',
 ]
 ASSUMPTIONS = [
